@@ -279,7 +279,9 @@ pub fn tx_alphabet(n: &Node, cfg: &AlphaCfg) -> Vec<(String, Transaction, bool)>
         if cfg.adversarial {
             // a payment that is one unit short of its minimum fee - refused late, after everything else about it has been found in
             // order - and, as a member of its own, the spend of its first output: a coin that must never have existed
-            if let Some((l, t)) = acc.iter().find(|(l, t, ok)| *ok && l.starts_with("xfer(") && t.fee.0 > 0 && t.outputs.iter().any(|o| o.denom == Denom::Mel)).map(|(l, t, _)| (l.clone(), t.clone())) {
+            // (one per denomination that is moved: the first four transfers)
+            let shorts: Vec<(String, Transaction)> = acc.iter().filter(|(l, t, ok)| *ok && l.starts_with("xfer(") && t.fee.0 > 0 && t.outputs.iter().any(|o| o.denom == Denom::Mel)).take(4).map(|(l, t, _)| (l.clone(), t.clone())).collect();
+            for (k, (l, t)) in shorts.into_iter().enumerate() {
                 let mut short_tx = t.clone();
                 short_tx.fee = CoinValue(t.fee.0 - 1);
                 if let Some(o) = short_tx.outputs.iter_mut().find(|o| o.denom == Denom::Mel) {
@@ -289,7 +291,7 @@ pub fn tx_alphabet(n: &Node, cfg: &AlphaCfg) -> Vec<(String, Transaction, bool)>
                 let mut ghost = tx_t(TxKind::Normal, vec![short_tx.output_coinid(0)], vec![out_t(o0.value.0, o0.denom)], 0, vec![0x9b]);
                 pay_min_fee(&mut ghost, m.fee_multiplier);
                 acc.push((format!("one-unit-short-of-its-fee:{}", l), short_tx, false));
-                if o0.denom == Denom::Mel && o0.covhash == addr_true() {
+                if k == 0 && o0.denom == Denom::Mel && o0.covhash == addr_true() {
                     acc.push(("spend-output0-of-the-one-unit-short-payment".into(), ghost, false));
                 }
             }
